@@ -233,6 +233,17 @@ func genC17(t *Tape) *Plan {
 	k.V5Pct = 55
 	k.CleanPct = 50
 	k.QosW = [3]int{2, 2, 1}
+	if t.Draw("c17.delayedwills", 3) == 0 {
+		// the delayed will is a route of its own (parked at disconnect, published by the housekeeping tick): v5
+		// sessions with an expiry, wills with a delay interval, and time passing
+		k.WillDelayChoices = []uint32{0, 1, 2}
+		k.ExpiryChoices = []uint32{60, 3600}
+		k.WillPct = 80
+		k.V5Pct = 80
+		k.WAdv = 3
+		k.WDrop = 4
+		k.AdvMs = []int{1000, 3000}
+	}
 	g := NewGen(t, &k, "C17")
 	cfg := &g.plan.Cfg
 	GenSchedConfig(t, cfg)
